@@ -117,10 +117,20 @@ def run_scenario(sc):
         warnings.simplefilter('ignore')
         s = FlowCal.transform.to_rfi(FlowCal.io.FCSData(path), mef_channels)
 
+        # cluster labels are arbitrary names (Calibration.tla: Cluster picks any renaming): in half of the scenarios the
+        # library's own clustering function is wrapped so that its labels come back renamed by a fixed permutation
+        relabel = None
+        if sc['seed'] % 2 == 1:
+            relabel = np.random.RandomState(sc['seed']).permutation(K)
+
+        def clustering(data, n_clusters, **kw):
+            lab = np.asarray(FlowCal.mef.clustering_gmm(data, n_clusters, **kw))
+            return lab if relabel is None else relabel[lab]
+
         def call(sample, seed):
             np.random.seed(seed)
-            return FlowCal.mef.get_transform_fxn(sample, mef_values, mef_channels, clustering_channels=cl, statistic_fxn=statf,
-                                                 full_output=True)
+            return FlowCal.mef.get_transform_fxn(sample, mef_values, mef_channels, clustering_fxn=clustering,
+                                                 clustering_channels=cl, statistic_fxn=statf, full_output=True)
         margin_ok = True
         for c in range(nch):
             t = FlowCal.plot._LogicleTransform(data=s[:, [mef_channels[c]]], channel=0).inverted()
